@@ -322,6 +322,23 @@ def value_includes_call(F, body, op, pred, depth=0, seen=None):
     return False
 
 
+def mentions_param(fl, op, depth=0, seen=None):
+    """the operand's value depends on a parameter of the function (through any call argument)"""
+    seen = set() if seen is None else seen
+    for o in fl.origins(op, mut_calls=True):
+        k = (o.kind, o.key, o.bb)
+        if k in seen:
+            continue
+        seen.add(k)
+        if o.kind in ('param', 'upvar'):
+            return True
+        if o.kind in ('call', 'mutcall') and o.bb is not None and depth < 8:
+            for a in fl.body.blocks[o.bb]['term'].get('args', []):
+                if a['k'] != 'const' and mentions_param(fl, a, depth + 1, seen):
+                    return True
+    return False
+
+
 def r7(ctx, F):
     b = F.body('archive::root_pair_hash')
     if b is None:
@@ -330,9 +347,8 @@ def r7(ctx, F):
     ups = fl.calls(lambda c: c.endswith('Hasher::update'))
     n = 0
     for ub, ut in ups:
-        os_ = fl.origins(ut['args'][1])
-        if os_ and all(o.kind == 'const' for o in os_):
-            continue        # the separator
+        if not mentions_param(fl, ut['args'][1]):
+            continue        # the separator: bytes that do not depend on either root
         n += 1
         ok = value_includes_call(F, b, ut['args'][1], lambda c: c in RESOLVERS)
         ctx.check(ok, 'C07.R7', 'root_pair_hash:update#%d' % n, 'hashed root passes through canonicalize',
